@@ -1203,7 +1203,7 @@ reg(Prop("C19", "The tuner optimises the same evaluation the engine plays with",
                          "material balance; distinct by FEN"),
           StreamCfg("c19z", 400, 20000,
                     rule="same generator; Go Eval[Score] on the no-hash board against the wrapping int16 model eval_Z, the "
-                         "non-wrapping model eval_U and the no_wrap hypothesis of the envelope theorem"),
+                         "non-wrapping model eval_U and the no_wrap predicate (proved for all valid positions: C19_no_wrap)"),
           StreamCfg("c19vec", 63, 140000, judge="judge_c19vec",
                     rule="target lists: default targets (tuner order), all fields, none, unknown name, every single field, "
                          "random subsets in random order with duplicates and unknown names (thorough: every one of the 2^17 "
@@ -1217,8 +1217,8 @@ reg(Prop("C19", "The tuner optimises the same evaluation the engine plays with",
                   "modelled, not verified: reflect (field order = declaration order, Array/Float64 kinds), math.Exp, float64 arithmetic"],
          assumptions=["float64 ~ real numbers: the IEEE-754 rounding of the <= 10^3 float operations of one evaluation (magnitudes <= 10^7) and of math.Exp "
                       "is NOT modelled; it is far below the 0.24 cp that the 2.25 envelope leaves above the proved real-number bound 2.0 (named assumption float64_real_gap)",
-                      "halfmove clock 0..200 (|100 - clock| <= 100); outside it the taper factor exceeds 1",
-                      "no int16 overflow in the integer evaluation (hypothesis no_wrap of the partial theorem, evaluated on every case of stream c19z)"],
+                      "halfmove clock 0..200 (|100 - clock| <= 100; the FEN parser admits 0..100); outside it the taper factor exceeds 1 "
+                      "and the int16 result may wrap"],
          extra=c19_extra, design_ref="5/C19"))
 
 reg(Prop("C09", "Fast checkmate and stalemate tests agree with the absence of legal moves", ["Properties/C09.v", "Properties/C09_closed.v"],
